@@ -100,14 +100,23 @@ Theorem C10_names : (∀ c n, uid c n ∉ dom c) ∧ (∀ U U' n n', uid_in U (n
 Proof. split; [exact uid_fresh|split; [exact comp_name_inj|exact helper_ne_comp]]. Qed.
 Print Assumptions C10_names.
 
-(* still NOT proved (kept visible): the result is lint-clean and has no other inputs than those of c and their companions.
-   The loop invariant (Inv, clause 4: every node of R is a node of c, a companion, or a helper with type Or/Nor/And/Not, a
-   non-empty fan-in and no dot in its name) contains what is needed; the derivation of lint_clean R from it is not done.
-   Both clauses are decided per generated case by the oracle (lint_cleanb R, input-set equality in `holds`). *)
-Definition C10_ternary_full : Prop := ∀ C nodes fo R μ,
-  lint_clean C → closed (c_g C) → ternary C nodes fo = Ok (R, μ) →
-  lint_clean R ∧ inputs (c_g R) = inputs (c_g C) ∪ set_map (mu_at μ) (inputs (c_g C)) ∧ tern_shape (c_g C) (c_g R) μ.
-(* proved under the decidable structure predicate tern_shape (which includes the input-set clause) *)
+(* the sequential construction always ends in the decidable gadget structure tern_shape, which includes that the inputs of R
+   are exactly the inputs of c and their companions *)
+Theorem C10_model_shape : ∀ C nodes fo R μ, lint_clean C → closed (c_g C) → ternary C nodes fo = Ok (R, μ) →
+  tern_shape (c_g C) (c_g R) μ.
+Proof. exact model_shape. Qed.
+Print Assumptions C10_model_shape.
+Theorem C10_ternary_inputs : ∀ C nodes fo R μ, lint_clean C → closed (c_g C) → ternary C nodes fo = Ok (R, μ) →
+  inputs (c_g R) = inputs (c_g C) ∪ set_map (mu_at μ) (inputs (c_g C)).
+Proof. intros C nodes fo R μ H1 H2 H3. by destruct (model_shape C nodes fo R μ H1 H2 H3) as (_ & _ & ?). Qed.
+Print Assumptions C10_ternary_inputs.
+
+(* still NOT proved (kept visible): the result is lint-clean.  Clause 4 of the loop invariant (every node of R is a node of c, a
+   companion, or a helper with type Or/Nor/And/Not, a non-empty fan-in and no dot in its name) contains what is needed; the
+   derivation of lint_clean R from it is not done.  Decided per generated case by the oracle (lint_cleanb R in `holds`) and by C20. *)
+Definition C10_ternary_lint_full : Prop := ∀ C nodes fo R μ,
+  lint_clean C → closed (c_g C) → ternary C nodes fo = Ok (R, μ) → lint_clean R.
+(* what follows from tern_shape alone (kept: it is what `agree` checks on the recorded result via shapeb) *)
 Theorem C10_ternary_partial : ∀ C nodes fo R μ, ternary C nodes fo = Ok (R, μ) →
   bb_free C ∧ bb_free R ∧ μ = mapping (c_g C) ∧ dom μ = dom (c_g C) ∧
   (tern_shape (c_g C) (c_g R) μ →
